@@ -261,6 +261,23 @@ func runC10Long(c *Ctx) {
 	item := 0
 	for _, thr := range thrs {
 		for _, infinite := range []bool{false, true} {
+			for order := 0; order < 3; order++ {
+				item++
+				if item%c.NShards != c.Shard {
+					continue
+				}
+				for _, v := range asyncSeveralCollections(c, thr, infinite, order) {
+					c.Violation(v)
+				}
+				c.Count("transitions", 2*thr+4)
+				key := fmt.Sprintf("collections|%d|%v|%d", thr, infinite, order)
+				c.Distinct("states", key)
+				c.Distinct("distinct_nontrivial", key)
+			}
+		}
+	}
+	for _, thr := range thrs {
+		for _, infinite := range []bool{false, true} {
 			for idx := 0; idx < total; idx++ {
 				item++
 				if item%c.NShards != c.Shard {
@@ -298,4 +315,128 @@ func decodeMaybeGz(data []byte, compressed bool, into interface{}) error {
 		data = d
 	}
 	return json.Unmarshal(data, into)
+}
+
+// Wide2 is a second collection type for the scenarios with several collections in one database.
+type Wide2 struct {
+	sod.Item
+	A int    `sod:"index"`
+	K string `sod:"unique"`
+}
+
+// asyncSeveralCollections: two (or three) collections created from ONE Schema value, as an
+// application with a single "asynchronous" schema does: each collection has its own pending
+// writes and each must meet its deadlines.
+func asyncSeveralCollections(c *Ctx, thr int, infinite bool, order int) []Violation {
+	var viol []Violation
+	timeout := 2 * step
+	if infinite {
+		timeout = 1000 * step
+	}
+	fail := func(sig, what string) {
+		if len(viol) < 3 {
+			viol = append(viol, Violation{Sig: "C10|collections|" + sig, What: what + fmt.Sprintf("\n  two collections created from the same Schema value, threshold %d, timeout %v, write order %d", thr, timeout, order)})
+		}
+	}
+	ex := vrt.Run(vrt.Config{Sequential: true, MaxTicks: 60}, func() {
+		setGlobals(Cfg{})
+		fsys := vfs.New()
+		vfs.Cur = fsys
+		db := sod.Open(dbRoot)
+		sch := sod.DefaultSchema
+		sch.Asynchrone(thr, timeout)
+		if err := db.Create(&Wide{}, sch); err != nil {
+			fail("create", "Create failed: "+err.Error())
+			return
+		}
+		if err := db.Create(&Wide2{}, sch); err != nil {
+			fail("create", "Create of the second collection failed: "+err.Error())
+			return
+		}
+		n := thr + 1
+		var ids1, ids2 []string
+		ins1 := func(i int) bool {
+			o := &Wide{A: i, B: wideB(i % 3), U: i, Seq: i, K: fmt.Sprintf("k%d", i), N: i}
+			if err := db.InsertOrUpdate(o); err != nil {
+				fail("insert", "insert failed: "+err.Error())
+				return false
+			}
+			ids1 = append(ids1, o.UUID())
+			return true
+		}
+		ins2 := func(i int) bool {
+			o := &Wide2{A: i, K: fmt.Sprintf("k%d", i)}
+			if err := db.InsertOrUpdate(o); err != nil {
+				fail("insert", "insert into the second collection failed: "+err.Error())
+				return false
+			}
+			ids2 = append(ids2, o.UUID())
+			return true
+		}
+		for i := 0; i < n; i++ {
+			switch order {
+			case 0: // interleaved
+				if !ins1(i) || !ins2(i) {
+					return
+				}
+			case 1: // second collection first
+				if !ins2(i) {
+					return
+				}
+			case 2:
+				if !ins1(i) {
+					return
+				}
+			}
+		}
+		for i := 0; i < n && order != 0; i++ {
+			if order == 1 && !ins1(i) {
+				return
+			}
+			if order == 2 && !ins2(i) {
+				return
+			}
+		}
+		if infinite {
+			vrt.Tick(2)
+		} else {
+			vrt.Tick(int(timeout/step) + 2)
+		}
+		onDisk := func(ids []string) int {
+			cnt := 0
+			for _, p := range fsys.Paths(dbRoot) {
+				for _, u := range ids {
+					if strings.Contains(p, u) && !strings.Contains(p, "/.") {
+						cnt++
+					}
+				}
+			}
+			return cnt
+		}
+		why := fmt.Sprintf("the timeout (%v) and two clock steps passed", timeout)
+		if infinite {
+			why = fmt.Sprintf("%d writes are pending per collection (threshold %d) and two clock steps passed", n, thr)
+		}
+		if got := onDisk(ids1); got != n {
+			fail("first-not-flushed", fmt.Sprintf("%s without any call: %d of the %d accepted objects of the first collection are on disk", why, got, n))
+		}
+		if got := onDisk(ids2); got != n {
+			fail("second-not-flushed", fmt.Sprintf("%s without any call: %d of the %d accepted objects of the second collection are on disk", why, got, n))
+		}
+		if err := db.Close(); err != nil {
+			fail("close", "Close failed: "+err.Error())
+			return
+		}
+		if onDisk(ids1) != n || onDisk(ids2) != n {
+			fail("close-incomplete", "Close returned but accepted objects are not on disk")
+		}
+		c.Count("evaluations", 1)
+	})
+	for _, p := range ex.Panics {
+		fail("panic|"+normPanic(p.Value+" @ "+sodFrame(p.Stack)), "panic: "+p.Value+"\n"+trimStack(p.Stack))
+	}
+	if ex.Deadlock || ex.Horizon {
+		fail("stuck", "the scenario blocked")
+	}
+	return viol
 }
